@@ -64,7 +64,7 @@ func requiredNodeEmpty(p *Prog, t Term) Req {
 // matchAnyOf: <something>.MatchAny(res(t)) is true.
 func matchAnyOf(p *Prog, t Term) Req {
 	return p.CallAtom(true, func(call *ast.CallExpr, a Atom) bool {
-		return len(call.Args) == 1 && p.IsResOf(a.term(call.Args[0]), t)
+		return len(call.Args) >= 1 && p.IsResOf(a.term(call.Args[0]), t)
 	}, "resources.Resource.MatchAny")
 }
 
@@ -422,11 +422,11 @@ func rulesC07(c *Ctx) {
 			}))
 			before := func(getter string, addend func(e ast.Expr) bool) Req {
 				return p.CallAtom(false, func(cl *ast.CallExpr, a Atom) bool {
-					if len(cl.Args) != 1 {
+					if len(cl.Args) < 1 {
 						return false
 					}
 					add, ok := unparen(cl.Args[0]).(*ast.CallExpr)
-					if !ok || p.CalleeName(add) != "time.Time.Add" || len(add.Args) != 1 || !addend(add.Args[0]) {
+					if !ok || p.CalleeName(add) != "time.Time.Add" || len(add.Args) < 1 || !addend(add.Args[0]) {
 						return false
 					}
 					g, ok := unparen(Recv(add)).(*ast.CallExpr)
@@ -529,7 +529,7 @@ func rulesC07(c *Ctx) {
 	c.Rule("C07.d", "every allocation announced with PREEMPTED_BY_SCHEDULER has been marked (MarkPreempted() == nil): the announced slice is built from marked elements only, or marking is all-or-nothing with rollback")
 	nAnn := 0
 	for _, cs := range p.CallSitesByName("objects.Application.notifyRMAllocationReleased") {
-		if len(cs.Call.Args) != 3 || p.Src(cs.Call.Args[1]) != "si.TerminationType_PREEMPTED_BY_SCHEDULER" {
+		if len(cs.Call.Args) < 3 || p.Src(cs.Call.Args[1]) != "si.TerminationType_PREEMPTED_BY_SCHEDULER" {
 			continue
 		}
 		nAnn++
@@ -692,7 +692,7 @@ func rulesC08(c *Ctx) {
 			n++
 			st := p.StateAt(fn, ap)
 			pre := p.Holds(st, p.CallAtom(true, func(cl *ast.CallExpr, a Atom) bool {
-				if len(cl.Args) != 2 || p.Src(cl.Args[1]) != "resources.Zero" {
+				if len(cl.Args) < 2 || p.Src(cl.Args[1]) != "resources.Zero" {
 					return false
 				}
 				d := p.DefOf(a.term(cl.Args[0]))
@@ -707,7 +707,7 @@ func rulesC08(c *Ctx) {
 					return ok && p.IsCall(dc, "objects.QueuePreemptionSnapshot.GetRemainingGuaranteedResource")
 				}),
 				p.CallAtom(true, func(cl *ast.CallExpr, a Atom) bool {
-					if len(cl.Args) != 2 {
+					if len(cl.Args) < 2 {
 						return false
 					}
 					rc, ok := unparen(cl.Args[0]).(*ast.CallExpr)
@@ -727,7 +727,7 @@ func rulesC08(c *Ctx) {
 		for _, first := range p.callsInShallow(fn, "objects.QueuePreemptionSnapshot.RemoveAllocation") {
 			loop, _ := p.enclosingLoop(first).(*ast.RangeStmt)
 			es, isStmt := p.Parent(first).(*ast.ExprStmt)
-			if loop == nil || !isStmt || len(first.Args) != 1 || Recv(first) == nil {
+			if loop == nil || !isStmt || len(first.Args) < 1 || Recv(first) == nil {
 				continue
 			}
 			gc, isC := unparen(first.Args[0]).(*ast.CallExpr)
@@ -763,11 +763,11 @@ func rulesC08(c *Ctx) {
 					if !isCall {
 						return true
 					}
-					if p.IsCall(dc, "objects.QueuePreemptionSnapshot.AddAllocation") && Recv(dc) != nil && len(dc.Args) == 1 &&
+					if p.IsCall(dc, "objects.QueuePreemptionSnapshot.AddAllocation") && Recv(dc) != nil && len(dc.Args) >= 1 &&
 						p.Src(Recv(dc)) == p.Src(Recv(first)) && p.Src(dc.Args[0]) == p.Src(first.Args[0]) {
 						ok = true
 					}
-					if id, isID := unparen(dc.Fun).(*ast.Ident); isID && id.Name == "append" && len(dc.Args) == 2 && p.Src(dc.Args[1]) == vic {
+					if id, isID := unparen(dc.Fun).(*ast.Ident); isID && id.Name == "append" && len(dc.Args) >= 2 && p.Src(dc.Args[1]) == vic {
 						ok = true
 					}
 					return true
@@ -930,7 +930,7 @@ func rulesC08(c *Ctx) {
 		own := false
 		for _, w := range p.FieldWrites(p.Field("objects.Queue.preemptingResource")) {
 			if p.inFn(w.Fn, fn) {
-				if cl, ok := unparen(w.Arg).(*ast.CallExpr); ok && len(cl.Args) == 2 && p.recvField(fn, cl.Args[0], "objects.Queue.preemptingResource") && p.isParam(fn, cl.Args[1], 0) {
+				if cl, ok := unparen(w.Arg).(*ast.CallExpr); ok && len(cl.Args) >= 2 && p.recvField(fn, cl.Args[0], "objects.Queue.preemptingResource") && p.isParam(fn, cl.Args[1], 0) {
 					if (nm == "objects.Queue.IncPreemptingResource") == p.IsCall(cl, "resources.Add") {
 						own = true
 					}
@@ -981,13 +981,13 @@ func rulesC08(c *Ctx) {
 			chk("queue is managed", p.BoolAtom(true, func(t Term) bool { return p.recvField(fn, t.E, "objects.Queue.isManaged") }))
 			chk("not already running", p.BoolAtom(false, func(t Term) bool { return p.recvField(fn, t.E, "objects.Queue.isQuotaPreemptionRunning") }))
 			chk("usage above the maximum", p.CallAtom(false, func(cl *ast.CallExpr, a Atom) bool {
-				return p.recvField(fn, Recv(cl), "objects.Queue.maxResource") && len(cl.Args) == 1 && p.recvField(fn, cl.Args[0], "objects.Queue.allocatedResource")
+				return p.recvField(fn, Recv(cl), "objects.Queue.maxResource") && len(cl.Args) >= 1 && p.recvField(fn, cl.Args[0], "objects.Queue.allocatedResource")
 			}, "resources.Resource.StrictlyGreaterThanOrEqualsOnlyExisting"))
 			chk("start time set", p.CallAtom(false, func(cl *ast.CallExpr, a Atom) bool {
 				return p.recvField(fn, Recv(cl), "objects.Queue.quotaPreemptionStartTime")
 			}, "time.Time.IsZero"))
 			chk("delay elapsed", p.CallAtom(false, func(cl *ast.CallExpr, a Atom) bool {
-				return len(cl.Args) == 1 && p.recvField(fn, cl.Args[0], "objects.Queue.quotaPreemptionStartTime")
+				return len(cl.Args) >= 1 && p.recvField(fn, cl.Args[0], "objects.Queue.quotaPreemptionStartTime")
 			}, "time.Time.Before"))
 			held := p.lockHeld(fn, w.Node, func(e ast.Expr) bool { return p.isRecvExpr(fn, e) }, true)
 			c.Check("C08.d", "running flag acquired under the queue lock", w.Node, held, "check-and-set of isQuotaPreemptionRunning is not atomic")
@@ -1020,11 +1020,11 @@ func rulesC08(c *Ctx) {
 			st := p.StateAt(fn, ap)
 			v := T(ap.Args[1], st)
 			fit := p.Holds(st, p.CallAtom(true, func(cl *ast.CallExpr, a Atom) bool {
-				return p.recvField(fn, Recv(cl), "objects.QuotaPreemptionContext.preemptableResource") && len(cl.Args) == 1 && p.IsResOf(a.term(cl.Args[0]), v)
+				return p.recvField(fn, Recv(cl), "objects.QuotaPreemptionContext.preemptableResource") && len(cl.Args) >= 1 && p.IsResOf(a.term(cl.Args[0]), v)
 			}, "resources.Resource.FitInMaxUndef"))
 			c.Check("C08.d", "quota victim fits in the preemptable amount", ap, fit, "victim selected without preemptableResource.FitInMaxUndef(res(victim)); facts: %v", p.FactStrings(st))
 			within := p.Holds(st, p.CallAtom(true, func(cl *ast.CallExpr, a Atom) bool {
-				return p.recvField(fn, Recv(cl), "objects.QuotaPreemptionContext.preemptableResource") && len(cl.Args) == 1
+				return p.recvField(fn, Recv(cl), "objects.QuotaPreemptionContext.preemptableResource") && len(cl.Args) >= 1
 			}, "resources.Resource.StrictlyGreaterThanOrEqualsOnlyExisting"))
 			c.Check("C08.d", "running total stays within the preemptable amount", ap, within, "victim selected without preemptableResource >= running total")
 		}
